@@ -27,7 +27,8 @@ EXHAUSTIVE_WHOLE = False
 def REQUIRED(tier):  # noqa: N802
     return {"compositions_checked": 119 if tier == "quick" else 270,
             "decodes": 3000, "dropped_games": 200, "odd_n_decodes": 300,
-            "gameplan_object_decodes": 500, "suite_runs": 1,
+            "gameplan_object_decodes": 500, "big_n_decodes": 8,
+            "suite_runs": 1,
             "contract_map_games_evaluated": 1000}
 
 
@@ -241,6 +242,21 @@ def decode_shard(ctx, count, part, parts):
         ctx.count("exhaustive_small_multisets")
         ctx.mark_exhaustive(f"all permutations of the game multiset for "
                             f"(n={n}, rounds={r})")
+    # team counts around 2^6 and 2^7 (index / mask types change there)
+    for n in [int(v) for v in rng.choice(
+            [63, 64, 65, 66, 70, 127, 128, 129, 130], 3, replace=False)]:
+        sp = search_space_for_n_and_rounds(n, 1)
+        bp = [int(v) for v in sp.blueprint]
+        dt = int_range_to_dtype(-n, n)
+        for tag in ("sorted", "random"):
+            p = list(bp)
+            if tag == "random":
+                rng.shuffle(p)
+            days = int(rng.choice([n - 1, n]))
+            dest = np.full((days, n), 5, dt)
+            check_decode(ctx, n, 1, days, p, dest, None, sp)
+            ctx.count("big_n_decodes")
+            ctx.count(f"big_n[{n}]")
     it = 0
     while done < count:
         n, r = combos[int(rng.integers(len(combos)))]
